@@ -66,6 +66,13 @@ Definition agrees18 (c : c18case) : bool :=
           end
       | None => false
       end
+  | COver typ n present appended rejected =>
+      match gfind typ gen_msgs with
+      | Some g =>
+          let guarded := loops_guarded (gm_dec g) in
+          if present <? n then rejected && (appended =? (if guarded then present + 1 else n)) else true
+      | None => false
+      end
   | CCut msize wire a b => check_raw_model gen_tables (CRaw msize wire a) && check_raw_model gen_tables (CRaw msize wire b)
   | _ => true
   end.
